@@ -136,21 +136,36 @@ func cmdCheck(args []string) int {
 	}
 	wg.Wait()
 	var all []*Obligation
+	lemmaUses := map[string]bool{}
 	for _, r := range reports {
 		all = append(all, r.Obls...)
 	}
 	for _, lm := range lemmas {
-		o, err := VerifyLemma(prog, cc.cs, lm)
+		os2, used, err := VerifyLemma(prog, cc.cs, lm)
 		if err != nil {
-			o = &Obligation{Name: "lemma:" + lm.Name, Kind: "lemma", Props: lm.Props, Clause: lm.Text, Result: &SolverResult{Status: "error", Output: err.Error()}}
-			o.Trivial = false
+			o := &Obligation{Name: "lemma:" + lm.Name, Kind: "lemma", Props: lm.Props, Clause: lm.Text, Result: &SolverResult{Status: "error", Output: err.Error()}}
 			cc.lemmas = append(cc.lemmas, o)
 			continue
 		}
-		cc.lemmas = append(cc.lemmas, o)
-		all = append(all, o)
+		for _, k := range used {
+			lemmaUses[k] = true
+		}
+		cc.lemmas = append(cc.lemmas, os2...)
+		all = append(all, os2...)
 	}
 	genS := time.Since(start).Seconds() - loadS
+	// a lemma may only rely on contracts that this same check proves against their bodies
+	for k := range lemmaUses {
+		found := false
+		for _, s := range sel {
+			if s == k {
+				found = true
+			}
+		}
+		if !found {
+			fatalf("a lemma of %s calls %s, whose contract is not tagged with this property", *prop, k)
+		}
+	}
 	SolveAll(all, cc.timeout, *tier == "thorough", 10)
 	solveS := time.Since(start).Seconds() - loadS - genS
 	for _, f := range frames {
@@ -256,7 +271,7 @@ func cmdCheck(args []string) int {
 				samples = append(samples, map[string]interface{}{"obligation": o.Name, "clause": o.Clause, "result": "unsat", "backend": o.Result.Backend, "time_s": round3(o.Result.Time)})
 			}
 		} else {
-			failures = append(failures, failure{name: o.Name, obl: o, reason: "solver answered " + o.Result.Status})
+			failures = append(failures, failure{name: o.Name, obl: o, reason: "solver answered " + o.Result.Status + " " + firstLine(o.Result.Output)})
 		}
 	}
 	for _, fr := range cc.frameRes {
